@@ -433,7 +433,50 @@ def r5_binding_expects(ctx):
     ctx.floor("variable-lookup expects", n, 8)
 
 
-RULES = [("C06-R1", r1_r2_r7), ("C06-R3", r3_args_index), ("C06-R4", r4_unchecked), ("C06-R5", r5_binding_expects)]
+SUB_EXCEPTIONS = {
+    "runtime::Runtime::bound_param_ids": "local_range is a Range built by the resolver with start <= end (analysis-table invariant, LOOKUP class)",
+}
+
+
+def r8_unsigned_subtraction(ctx):
+    """`a - b` on unsigned lengths of run-time data needs a dominating `b <= a` (debug builds panic, release wraps)."""
+    if ctx.cfg != "dev":
+        ctx.note("overflow checks are compiled out in this configuration; rule evaluated on the dev build")
+        return
+    n = 0
+    files = ("src/runtime.rs", "src/builtins/mod.rs", "src/builtins/array.rs", "src/builtins/number.rs", "src/builtins/process.rs", "src/builtins/string.rs", "src/process.rs")
+    for fn in [f for f in judged_bodies(ctx) if f.file in files]:
+        for b in sorted(fn.live):
+            t = fn.blocks[b]["t"]
+            if t["k"] != "assert" or not t["kind"].startswith("OverflowSub"):
+                continue
+            n += 1
+            a = ne(fn.deep(t["ops"][0]))
+            bb = ne(fn.deep(t["ops"][1]))
+            key = "%s|%s - %s" % (parent_fn(fn.id), sh(a)[:60], sh(bb)[:40])
+            if parent_fn(fn.id) in SUB_EXCEPTIONS:
+                ctx.ok(key, fn.where(b), "named exception: " + SUB_EXCEPTIONS[parent_fn(fn.id)])
+                continue
+            facts = cmp_facts(fn, b)
+            ok = False
+            for op, A, B, S in facts:
+                for (o, x, y) in ((op, A, B), ({"Lt": "Gt", "Le": "Ge", "Gt": "Lt", "Ge": "Le", "Eq": "Eq", "Ne": "Ne"}[op], B, A)):
+                    if x == bb and y == a and o in ("Lt", "Le"):
+                        ok = True
+                    if x == a and y == bb and o in ("Gt", "Ge"):
+                        ok = True
+                    # len - k guarded by len > c / len >= c / len != 0 (k == 1)
+                    if bb[0] == "const" and isinstance(bb[1], int) and x == a and y[0] == "const" and isinstance(y[1], int):
+                        if (o == "Gt" and y[1] >= bb[1] - 1) or (o == "Ge" and y[1] >= bb[1]) or (o == "Ne" and y[1] == 0 and bb[1] == 1):
+                            ok = True
+            if ok:
+                ctx.ok(key, fn.where(b), "dominated by a comparison of the two operands")
+            else:
+                ctx.bad(key, fn.where(b), "unsigned subtraction `%s - %s` has no dominating guard (%s): with run-time data for which the right side is larger the debug build panics and the release build wraps" % (sh(a), sh(bb), [(o, sh(x), sh(y)) for o, x, y, S in facts]))
+    ctx.floor("unsigned subtractions examined", n, 3)
+
+
+RULES = [("C06-R1", r1_r2_r7), ("C06-R3", r3_args_index), ("C06-R4", r4_unchecked), ("C06-R5", r5_binding_expects), ("C06-R8", r8_unsigned_subtraction)]
 
 EXPLANATION = (
     "Static analysis of the type-checked MIR of every body reachable from Runtime::run/run_with_analysis in the script-facing "
